@@ -79,4 +79,42 @@ REGISTRY = {
             'only)',
         ],
     },
+    'C12': {
+        'level': 'proof',
+        'technique': 'contract-based deductive verification (VCs from the '
+                     'real source, z3) + bounded stand-in of the same '
+                     'contracts',
+        'level_text': 'node-local cancel contracts on Worker and '
+                      'DetachedServer: a cancelled mailbox is dropped and a '
+                      'result for it changes nothing, awaiting it raises, '
+                      'CANCEL removes every descendant task with its '
+                      'mailboxes, the ready-queue never hands out a task '
+                      'with a cancelled ancestor, a finished task releases '
+                      'every mailbox it owns, client cancel/disconnect '
+                      'remove the task from the server tables and touch no '
+                      'other client; discharged by z3 for all states',
+        'level_note': 'sequential per-function contracts (the two worker '
+                      'threads are not interleaved here); two clauses with '
+                      'a nested existential (table cleanliness of the ready '
+                      'queue, membership precondition of Worker.cancel) are '
+                      'decided by the bounded check only; RuntimeTask '
+                      'start/cancel assumed; system-wide quiescence not '
+                      'decided',
+        'parts': [
+            {'kind': 'bounded', 'module': 'contracts.c12'},
+            {'kind': 'pyvc', 'module': 'contracts.c12'},
+        ],
+        'rule': 'A: obligations of the worker / server cancel functions, '
+                'all paths; B: same contracts on real Worker objects with '
+                '1-2 (3) live tasks, 0-2 mailboxes in every fill state, '
+                'ancestor chains over two foreign addresses, every set of '
+                'cancelled addresses, and on every small server state; '
+                'non-trivial = message sent, value returned, exception or '
+                'field changed',
+        'explanation': 'contract-based deductive verification of the cancel '
+                       'paths plus bounded stand-in of the same contracts',
+        'trusted_base': [
+            'contracts/runtime_prog.py external models (Connection, Queue)',
+        ],
+    },
 }
